@@ -4,6 +4,7 @@ import json
 import time
 
 import conc
+import crash
 import minthist
 from core import tier, write_evidence
 
@@ -67,6 +68,11 @@ def c05():
 @reg("C06")
 def c06():
     return minthist.check("C06")
+
+
+@reg("C07")
+def c07():
+    return crash.check("C07")
 
 
 @reg("C09")
